@@ -33,6 +33,8 @@ class Device:
         self.received = []       # (t, line)
         self.dead = False
         self.feed_free_at = 0
+        self.cut_reply = None
+        self.cut_seen = 0
 
     def attach(self, port):
         self.port = port
@@ -59,6 +61,16 @@ class Device:
                 self.swallow -= 1
                 continue
             replies = self.answer(line)
+            if self.cut_reply and line == self.cut_reply["cmd"]:
+                self.cut_seen += 1
+                if self.cut_seen == self.cut_reply["nth"] and replies:
+                    # the link fails in the middle of this reply: only its first bytes arrive
+                    keep = replies[0].encode("utf-8")[:self.cut_reply["keep"]]
+                    lat = sched.us(self.latency(self.n_cmds, line))
+                    t = max(sched.S.now + lat, self.last_emit)
+                    self.last_emit = t
+                    sched.S.at(t - sched.S.now, lambda k=keep: self._cut(k))
+                    continue
             lat = sched.us(self.latency(self.n_cmds, line))
             t = max(sched.S.now + lat, self.last_emit)
             for r in replies:
@@ -106,6 +118,14 @@ class Device:
             exc = self.eof_exc or serial.SerialException("device disconnected (EOF)")
             sched.S.emit("fault_injected", exc=type(exc).__name__)
             self.port.inject_fault(exc)
+
+    def _cut(self, keep):
+        if self.dead or self.port is None:
+            return
+        sched.S.emit("dev_partial", data=keep.hex())
+        if keep:
+            self.port.feed(keep)
+        self.drop_link()
 
     def port_dies(self):
         """the transport ends without an exception: the port object reports closed and reads return nothing"""
